@@ -1,0 +1,79 @@
+//go:build verif
+
+// Contracts for the deductive verifier under /verif (foxvc): panic recovery
+// (property C15). Comments only.
+
+package fox
+
+//@ package fox
+
+//@ -- ---------------------------------------------------------------- C15: credential headers never reach the log
+//@ -- ASCII case folding (header names are ASCII tokens)
+//@ fun foldEq(a string, b string) bool
+//@ -- the table of credential-bearing header names is read from the source on every run and compared,
+//@ -- ignoring case, with the names the property lists
+//@ audit string-table props C15 : blacklistedHeader covers "Authorization", "Proxy-Authorization", "Cookie", "Set-Cookie", "X-CSRF-Token", "X-Vault-Token"
+
+//@ pred blacklisted(name string) = exists i int :: 0 <= i && i < len(blacklistedHeader) && foldEq(blacklistedHeader[i], name)
+
+//@ func isBlacklistedHeader props C15
+//@   ensures result <==> blacklisted(name)
+//@   loop 1: invariant -1 <= rangeindex && rangeindex < len(blacklistedHeader)
+//@   loop 1: invariant forall i int :: {blacklistedHeader[i]} 0 <= i && i <= rangeindex ==> !foldEq(blacklistedHeader[i], name)
+//@   loop 1: decreases len(blacklistedHeader) - rangeindex
+
+//@ -- the loop body of the request dump (range-over-func yield function): a header line is copied to the
+//@ -- log only when its name is not a credential name; for a credential name only the name is written
+//@ ghost var dumpName string
+//@ func recovery$1 props C15 partial
+//@   modifies heap, sbLen, dumpName
+//@   ghost-set call isBlacklistedHeader#1 : dumpName = arg_name
+//@   assert-at call isBlacklistedHeader#1 : tests-the-name: 0 <= idx && idx < len(header) && header[idx] == ':' && len(arg_name) == idx && forall i int :: {arg_name[i]} 0 <= i && i < idx ==> arg_name[i] == header[i]
+//@   assert-at call (*Builder).Write#2 : name-only: len(arg_p) == idx && blacklisted(dumpName)
+//@   assert-at call (*Builder).Write#3 : not-credential: !blacklisted(dumpName)
+
+//@ -- ---------------------------------------------------------------- C15: the recovery skeleton
+//@ ghost var recCalls int
+//@ ghost var recArg any
+//@ pred isAbort(v any) = v != nil && implements(v, error) && errIs(v, http.ErrAbortHandler)
+//@ fun connBroken(v any) bool
+//@ fun wWritten(w ResponseWriter, epoch int) bool
+
+//@ extern RecoveryFunc.call
+//@   modifies heap, recCalls, recArg, wFinal, wFirst, wInfo, wBody
+//@   ensures recCalls == old(recCalls) + 1 && recArg == err
+//@ extern connIsBroken pure
+//@   ensures result == connBroken(err)
+//@ extern stacktrace pure
+//@ extern mapParamsToAttr pure
+//@ extern ResponseWriter.Written
+//@   ensures result == wWritten(self, hCalls)
+//@ fun ctxRoute(c Context, epoch int) *Route
+//@ extern Context.Route
+//@   ensures result == ctxRoute(self, hCalls)
+//@ extern Context.Params
+//@ extern Context.Pattern
+//@ extern Context.Scope
+
+//@ func scopeToString props C15
+//@   ensures scope == OptionsHandler ==> result == "OptionsHandler"
+//@   ensures scope == NoMethodHandler ==> result == "NoMethodHandler"
+//@   ensures scope == RedirectHandler ==> result == "RedirectHandler"
+//@   ensures scope == NoRouteHandler ==> result == "NoRouteHandler"
+
+//@ func recovery props C15 partial
+//@   requires logger != nil && c != nil && handle != nil
+//@   modifies heap, panicking, sbLen, recCalls, recArg, wFinal, wFirst, wInfo, wBody, logN[logger], logAt[logger], logLvl[logger], logMsg[logger], logAttrs[logger]
+//@   panics-when isAbort(panicking)
+//@   assert-at panic#1 : reraised-unchanged: isAbort(old(panicking)) && panic_value == old(panicking) && logN[logger] == old(logN[logger]) && recCalls == old(recCalls)
+//@   ensures contained: panicking == nil && !isAbort(old(panicking))
+//@   ensures quiet: old(panicking) == nil ==> logN[logger] == old(logN[logger]) && recCalls == old(recCalls)
+//@   ensures logged: old(panicking) != nil ==> logN[logger] == old(logN[logger]) + 1 && logLvl[logger] == 8
+//@   ensures answered: old(panicking) != nil && !wWritten(ctxWriter(c, hCalls), hCalls) && !connBroken(old(panicking)) ==> recCalls == old(recCalls) + 1 && recArg == old(panicking)
+//@   ensures untouched: old(panicking) != nil && (wWritten(ctxWriter(c, hCalls), hCalls) || connBroken(old(panicking))) ==> recCalls == old(recCalls) && wFinal == old(wFinal) && wBody == old(wBody)
+
+//@ -- the middleware closure: the handler runs exactly once, the deferred recovery is the only thing after it
+//@ func CustomRecoveryWithLogHandler$1$1 props C15 partial
+//@   requires next != nil && slogger != nil && handle != nil && c != nil
+//@   modifies heap, hCalls, wFinal, wFirst, wInfo, wBody, wFlush, wHijack, hFn, hRoute, hTsr, hScope, hNParams, hReq, panicking, sbLen, recCalls, recArg, logN[slogger], logAt[slogger], logLvl[slogger], logMsg[slogger], logAttrs[slogger]
+//@   ensures once: hCalls == old(hCalls) + 1 && hFn == next
